@@ -41,6 +41,39 @@ def minimise(ctx, files, cfg, prefixes, max_rounds=14):
     return cur, differs(cur)
 
 
+def vet_cache_sequence(ctx, prefixes):
+    """go vet keeps the facts of a dependency in the build cache, keyed by files, tool and flags - not by the environment.
+    A sequence of runs on ONE fresh cache in which an earlier run excluded this checker's category through the environment:
+    the later, unrestricted runs must still report the violations that stem from the dependency's annotations."""
+    import re, shutil, stressgen
+    cat = prefixes[0]
+    code = {"IMM": "IMM01", "CTOR": "CTOR01", "TONL": "TONL02", "PKGO": "PKGO02"}[cat]
+    d = lib.scratch_dir()
+    root = os.path.join(d, "m")
+    files, _ = stressgen.ignore_stress(0, 0)
+    files["app/app.go"] = "package app\n\nimport \"w/lib\"\n\nfunc Use(t *lib.T) {\n\tt.F = 1\n\t_ = lib.T{}\n\t_ = lib.Mock()\n\t_ = lib.Internal()\n}\n"
+    stressgen.write(root, files)
+    env = dict(ctx.env)
+    env["GOCACHE"] = os.path.join(d, "gocache")
+    seq, bad = [], None
+    for val, pats in ((cat, ["./..."]), (None, ["./app"]), ("ALL", ["./..."]), (None, ["./..."]), (cat.lower() + "01", ["./app"]), ("", ["./app"])):
+        e = dict(env)
+        if val is not None:
+            e["GOGREEMENT_EXCLUDE_CHECKS"] = val
+        else:
+            e.pop("GOGREEMENT_EXCLUDE_CHECKS", None)
+        rc, out, err = lib.sh(["go", "vet", "-vettool=" + ctx.gg] + pats, cwd=root, env=e, timeout=900)
+        got = sorted(set(re.findall(r"\[([A-Z]+\d+)\]", err + out)))
+        seq.append({"GOGREEMENT_EXCLUDE_CHECKS": val, "patterns": pats, "codes": got})
+        parsed = [t.strip().upper() for t in (val or "").split(",") if t.strip()]
+        excluded = any(t in parsed for t in ("ALL", cat, code))
+        if (code in got) == excluded or lib.crash_in(err + out):
+            bad = {"sequence_so_far": seq, "expected": "%s %s in the last run" % (code, "absent" if excluded else "present"), "stderr_tail": err[-500:], "files": files}
+            break
+    shutil.rmtree(d, ignore_errors=True)
+    return bad, len(seq)
+
+
 def run(ctx, pid, prefixes, what, assumptions):
     rep = lib.Report(ctx, pid)
     res = worlds.base_run(ctx)
@@ -84,7 +117,14 @@ def run(ctx, pid, prefixes, what, assumptions):
                            "expected_by_model_only": by_world[wid]["model_only"][:20],
                            "after_minimisation": still, "files": small,
                            "what": what, "replay_cmd": "checks/replay.sh <this file>"})
+    vbad, vruns = vet_cache_sequence(ctx, prefixes)
+    if vbad:
+        found = True
+        rep.violation(dict({"property": pid, "kind": "vet-sequence",
+                            "what": "go vet -vettool on one build cache: what an earlier run (with this checker's category excluded through the environment) left in the cached facts "
+                                    "of a dependency makes a later run lose the violations of an annotation declared in a directly imported package"}, **vbad))
     lib.obligation_gate(rep, ctx, pid, found)
+    rep.cov["vet_cache_sequence_runs"] = vruns
     rep.cov["evaluations"] = evaluations
     rep.cov["distinct_nontrivial"] = len(nontrivial)
     rep.cov["rule"] = ("%d generated worlds (declaring package d, alias package m, user packages u / ok / bypath, sites inside d itself; 1-4 files each incl. _test.go), every candidate "
@@ -105,6 +145,11 @@ def run(ctx, pid, prefixes, what, assumptions):
 
 
 def replay(ctx, d):
+    if d.get("kind") == "vet-sequence":
+        print(json.dumps({k: v for k, v in d.items() if k != "files"}, indent=1)[:4000])
+        bad, _ = vet_cache_sequence(ctx, (d["property"] == "C01" and ("IMM",)) or (d["property"] == "C02" and ("CTOR",)) or (d["property"] == "C03" and ("TONL",)) or ("PKGO",))
+        print("re-run of the sequence:", "VIOLATED" if bad else "holds")
+        return 1 if bad else 0
     if d.get("kind") != "world":
         print(json.dumps(d, indent=1)[:4000])
         return 0
